@@ -154,7 +154,11 @@ pub fn record_kinds(tree: &RefExpr, st: &mut Stats) {
 }
 
 fn gen_case(src: &mut Src, st: &mut Stats, _env: &Env) -> CaseResult {
-    let doc = gen_doc(src, &DocOpts::default());
+    let mut doc = gen_doc(src, &DocOpts::default());
+    if src.chance(8) {
+        crate::gen_doc::scale_some_array(&mut doc, src, 2500);
+        st.class("scaled-document");
+    }
     let opts = ExprOpts::default();
     let tree = gen_expr(src, 0, Some(&doc), &opts);
     let (text, _, _) = match spell_tree(&tree, src, st) {
@@ -262,7 +266,7 @@ pub fn replay_pair(sub: &'static str) -> impl Fn(&Value, &Env) -> CaseResult {
 /// Towers: one construct nested / chained 1..16 times around a small random
 /// leaf, against documents nested the same way (depth-dependent behaviour).
 fn towers(src: &mut Src, st: &mut Stats, _env: &Env) -> CaseResult {
-    let depth = 1 + src.below(16);
+    let depth = if src.chance(40) { 17 + src.below(28) } else { 1 + src.below(16) };
     let leaf = *src.pick(&["a", "@", "`1`", "a[0]", "[0]", "a.b", "length(@)", "a || `0`", "'x'"]);
     let rep = |s: &str| s.repeat(depth);
     let kind = src.below(16);
@@ -302,18 +306,21 @@ fn towers(src: &mut Src, st: &mut Stats, _env: &Env) -> CaseResult {
                 }
                 J::Obj(m)
             }
-            (1, _) | (2, _) | (3, _) | (13, _) | (14, _) => J::Arr(vec![doc.clone(), J::Null, doc]),
+            // (doubling only while the document stays small)
+            (1, _) | (2, _) | (3, _) | (13, _) | (14, _) if i < 8 && depth <= 10 => J::Arr(vec![doc.clone(), J::Null, doc]),
+            (1, _) | (2, _) | (3, _) | (13, _) | (14, _) => J::Arr(vec![doc, J::Null]),
             (_, 0) => J::Arr(vec![doc]),
             (_, 1) => {
                 let mut m = std::collections::BTreeMap::new();
                 m.insert("a".to_string(), doc);
                 J::Obj(m)
             }
-            (_, 2) => {
+            (_, 2) if i < 8 && depth <= 10 => {
                 let mut m = std::collections::BTreeMap::new();
                 m.insert("a".to_string(), J::Arr(vec![doc.clone(), doc]));
                 J::Obj(m)
             }
+            (_, 2) => J::Arr(vec![J::Null, doc]),
             _ => J::Arr(vec![J::Obj([("a".to_string(), doc)].into_iter().collect())]),
         };
     }
@@ -338,6 +345,50 @@ fn towers(src: &mut Src, st: &mut Stats, _env: &Env) -> CaseResult {
         st.sample(|| json!({"expression": text, "document": dt}));
     }
     Ok(())
+}
+
+const REPEAT_DOCS: &[&str] = &[
+    "{\"a\":[{\"a\":[[1,2],[3]],\"b\":[1,2]},{\"b\":[3]},[4,[5]]],\"b\":[[1],[2]],\"k\":1}",
+    "{\"a\":{\"a\":{\"a\":{\"a\":[1,[2,[3,[4]]]],\"b\":true},\"b\":1}},\"b\":0}",
+    "[[[[1,2],[3]],[[4]]],[[[5]]]]",
+];
+
+/// Enumerated repeat family (syn::REPEAT_FORMS): values at every count.
+fn repeats(env: &Env, st: &mut Stats) -> Vec<Failure> {
+    use crate::syn::{repeat_counts, repeat_text, REPEAT_FORMS};
+    let mut fails = vec![];
+    let docs: Vec<(J, &str)> = REPEAT_DOCS.iter().map(|t| (J::parse(t).unwrap(), *t)).collect();
+    for form in 0..REPEAT_FORMS.len() {
+        'counts: for k in repeat_counts(env.tier == Tier::Thorough) {
+            let text = repeat_text(form, k);
+            let tree = match refparse::parse_strict(&text) {
+                Ok(t) => t,
+                Err(_) => continue,
+            };
+            for (d, dt) in &docs {
+                st.eval();
+                match compare("repeats", &tree, &text, d, dt, st, true) {
+                    Ok(c) => {
+                        if k >= 17 && c.nontrivial {
+                            st.nontrivial(&format!("repeat:{}:{}:{}", form, k, dt.len()));
+                        }
+                    }
+                    Err(mut f) => {
+                        f.case = json!({"form": form, "count": k, "document": dt, "expression_prefix": repeat_text(form, 3)});
+                        fails.push(f);
+                        break 'counts;
+                    }
+                }
+            }
+        }
+    }
+    st.sample(|| json!({"repeat_form": repeat_text(2, 4), "counts": "0..=600"}));
+    fails
+}
+
+fn replay_repeat(case: &Value, _env: &Env) -> CaseResult {
+    let text = crate::syn::repeat_text(case["form"].as_u64().unwrap_or(0) as usize, case["count"].as_u64().unwrap_or(0) as usize);
+    replay_pair("repeats")(&json!({"expression": text, "document": case["document"]}), _env)
 }
 
 fn fuzz_run(env: &Env, st: &mut Stats) -> Vec<Failure> {
@@ -399,6 +450,7 @@ pub fn property() -> Property {
             }),
             Sub::Bytes(BytesSub { name: "towers", f: towers, max_len: 64, quick: Budget { threads: 8, cases: 3000 }, thorough: Budget { threads: 16, cases: 150_000 }, keep_unreproducible: false }),
             Sub::Custom(CustomSub { name: "cross", run: cross, replay: replay_cross }),
+            Sub::Custom(CustomSub { name: "repeats", run: repeats, replay: replay_repeat }),
             Sub::Custom(CustomSub { name: "fuzz-eval_diff", run: fuzz_run, replay: fuzz_replay }),
         ],
     }
